@@ -727,6 +727,13 @@ def configs(chk):
                     pairs = rng.sample(pairs, 8)
                 for a, b in pairs:
                     out.append((name, dim, {a: 2, b: 2}, 0, "Iq"))
+            if not chk.quick and len(pds) >= 2:
+                a, b = pds[0], pds[-1]
+                out.append((name, dim, {a: 3, b: 2}, 0, "Iq"))
+            if not chk.quick and len(pds) >= 3 and dim == "1d":
+                tris = list(itertools.combinations(pds, 3))
+                for tri in rng.sample(tris, min(2, len(tris))):
+                    out.append((name, dim, {k: 2 for k in tri}, 0, "Iq"))
     return out
 
 
